@@ -8,3 +8,43 @@ package hh
 //@   props C04
 //@   loop 1 invariant lenwf: len(b) >= 0
 //@   loop 1 decreases len(b)
+
+// ---- C04: the hinted-handoff queue loses nothing and keeps order ----
+
+//@ func newSegment
+//@   assumed
+//@   modifies nothing
+//@   ensures created: result1 == nil ==> result0 != nil && fresh(result0) && result0.id == id
+
+// Segments are reloaded in id order (the order blocks were accepted in), whatever order the directory lists them in.
+//@ func (*queue).loadSegments
+//@   props C04
+//@   loop 1 invariant non_nil: all(k, 0, len(segments), segments[k] != nil)
+//@   loop 1 invariant own_storage: len(segments) == 0 || fresh(segments)
+//@   ensures non_nil: all(k, 0, len(result0), result0[k] != nil)
+//@   ensures in_id_order: result1 == nil ==> all(i, 0, len(result0), all(j, i+1, len(result0), result0[i].id <= result0[j].id))
+
+// marshalWrite: no panic; the block always starts with the 8-byte shard id.
+//@ func marshalWrite
+//@   props C04
+//@   requires points_non_nil: all(k, 0, len(points), points[k] != nil)
+//@   loop 1 invariant header: len(b) >= 8 && len(nb) == 4 && fresh(b) && fresh(nb) && arr(b) != arr(nb)
+//@   ensures header: len(result) >= 8
+//@   modifies nothing
+
+//@ func (*queue).Append
+//@   assumed
+//@   modifies queue.all, segment.all
+
+// WriteShard splits a batch too large for one block by bisection: ghost `appended` is the number of leading
+// points handed to the queue so far (chunks are contiguous and in order); success means every point was.
+//@ func (*NodeProcessor).WriteShard
+//@   props C04
+//@   requires n.queue != nil && n.stats != nil
+//@   requires points_non_nil: all(k, 0, len(points), points[k] != nil)
+//@   ghost appended int = 0
+//@   at after queue.Append#1: ghost appended = ite(callresult == nil, j, appended)
+//@   loop 1 invariant progress: 0 <= i && i <= len(points) && j == len(points) && appended == i
+//@   loop 2 invariant bisect: i < j && j <= len(points) && appended == i && 0 <= i
+//@   loop 2 decreases j - i
+//@   ensures nothing_lost: result == nil ==> appended == len(points)
